@@ -46,10 +46,12 @@ func edScalarOf(s sign.Scheme) *edScalar {
 	return nil
 }
 
-func addOrder(sig []byte, e *edScalar) []byte {
+// addOrder returns the signature with k times the group order added to the scalar S (nil if the
+// result does not fit in the scalar's byte width).
+func addOrder(sig []byte, e *edScalar, k int64) []byte {
 	o := append([]byte{}, sig...)
 	v := vlib.FromLE(o[e.off : e.off+e.n])
-	v.Add(v, e.order)
+	v.Add(v, new(big.Int).Mul(e.order, big.NewInt(k)))
 	if v.BitLen() > 8*e.n {
 		return nil
 	}
@@ -133,8 +135,21 @@ func alterSig(t *rapid.T, sig []byte, e *edScalar) (string, []byte) {
 	case "sig-double":
 		return "sig-double", append(o, sig...)
 	case "sig-S-plus-L":
-		if r := addOrder(sig, e); r != nil {
-			return "sig-S-plus-L", r
+		// S + k·L for every k that still fits the encoding: k = 1 is the classic malleability case,
+		// larger k reach the unused top bits / the last byte of the scalar (k ≥ 4 for Ed448)
+		kmax := int64(15)
+		if e.n == 57 {
+			kmax = 1023
+		}
+		k := int64(1)
+		if rapid.Bool().Draw(t, "kbig") {
+			k = rapid.Int64Range(2, kmax).Draw(t, "k")
+		}
+		if r := addOrder(sig, e, k); r != nil {
+			return fmt.Sprintf("sig-S-plus-L=%d", k), r
+		}
+		if r := addOrder(sig, e, 1); r != nil {
+			return "sig-S-plus-L=1", r
 		}
 		o[0] ^= 1
 		return "sig-bitflip@0", o
